@@ -87,7 +87,7 @@ func wrapInnerSecureAsk(name string, fail bool, x p2p.SecureAskSwarm[memswarm.Ad
 
 // variantKinds: wrapping stacks that own their inner swarm (their Close closes it at HEAD), run with an inner
 // swarm whose Close reports an error. p2pmux is left out: the mux has no Close and does not own the inner swarm.
-var variantKinds = []string{"fragswarm+innererr", "mbapp+innererr", "p2pkeswarm+innererr", "quicswarm+innererr", "multiswarm3+innererr"}
+var variantKinds = []string{"p2pmux+reopened", "fragswarm+innererr", "mbapp+innererr", "p2pkeswarm+innererr", "quicswarm+innererr", "multiswarm3+innererr"}
 
 var stackKinds = []string{"memswarm", "fragswarm", "mbapp", "p2pmux", "multiswarm", "p2pkeswarm", "quicswarm", "sshswarm", "udpswarm"}
 
@@ -157,6 +157,24 @@ func newStack(kind string) (*Stack, error) { return newStackV(kind, 0) }
 // newStackV: variant selects, for multiswarm3+innererr, which of the three transports fail (bit mask, 0 = all).
 func newStackV(kind string, variant int) (*Stack, error) {
 	switch kind {
+	case "p2pmux+reopened":
+		// the swarm under test is the SECOND swarm opened for its channel: the first one was opened and closed
+		// before, and the application closes that old handle once more (Close is repeatable) just before it closes
+		// the new one. The mux keys its registrations by channel id, not by swarm: whatever the old handle's
+		// Close does to the table, the new swarm's Close must still end its Receive / ServeAsk calls.
+		r := memswarm.NewSecureRealm[struct{}](memswarm.WithQueueLen(128))
+		pin, tin := r.NewSwarm(struct{}{}), r.NewSwarm(struct{}{})
+		peer := p2pmux.NewStringSecureAskMux[memswarm.Addr, struct{}](pin).Open("verif")
+		tm := p2pmux.NewStringSecureAskMux[memswarm.Addr, struct{}](tin)
+		old := tm.Open("verif")
+		old.Close()
+		target := tm.Open("verif")
+		closeBoth := func() error {
+			old.Close()
+			return target.Close()
+		}
+		return wrap[memswarm.Addr](kind, p2p.Swarm[memswarm.Addr](target), p2p.Swarm[memswarm.Addr](peer), target.LocalAddrs()[0], peer.LocalAddrs()[0], closeBoth,
+			closeQuietly(tin.Close, peer.Close, pin.Close)), nil
 	case "fragswarm+innererr":
 		r := memswarm.NewRealm(memswarm.WithQueueLen(128), memswarm.WithMTU(1<<12))
 		peer := fragswarm.New[memswarm.Addr](r.NewSwarm(), 1<<16)
